@@ -60,13 +60,26 @@ func vxCopyLive(l *vxLive) *vxLive {
 
 // VerifC07_Crash: a mutation interrupted by a crash before any of its commits leaves the store
 // exactly as before or exactly as after, and as after whenever the call had returned success.
+func vxSig07(id string) detection.Signature {
+	if vxParam("samehist", 0) == 1 {
+		return vxSigLite(id) // smaller pools: the longer history multiplies every choice
+	}
+	return vxSig(id)
+}
+
 func VerifC07_Crash() {
 	s := vxNewStore()
 	before := &vxLive{}
 	ids := []string{vxID(), vxID()}
 	pre := vxPick(2)
+	if vxParam("samehist", 0) == 1 {
+		// a longer history on one ID: it is added, re-added (possibly with identical index keys), and then
+		// mutated - what an index key's write history looks like matters to tombstone optimisations
+		ids = []string{"A", "A"}
+		pre = 2
+	}
 	for i := 0; i < pre; i++ {
-		sg := vxSig(ids[i])
+		sg := vxSig07(ids[i])
 		cp := sg
 		if err := s.AddSignature(&sg); err != nil {
 			vxAssert("add-succeeds", false)
@@ -75,18 +88,24 @@ func VerifC07_Crash() {
 	}
 	after := vxCopyLive(before)
 	op := vxPick(5)
+	if vxParam("samehist", 0) == 1 {
+		vxAssume(op == 0) // the longer history is followed by an add/update only ...
+	}
 	crashAt := vxPick(3) // before commit 0, before commit 1, or not within the first two commits
+	if vxParam("samehist", 0) == 1 {
+		vxAssume(crashAt == 2) // ... and by a restart (clean or power loss) after the call returned, not by a crash inside it
+	}
 	vxCrashBeforeCommit(crashAt)
 	returnedOK := false
 	var mutate func() error
 	switch op {
 	case 0:
-		sg := vxSig(ids[vxPick(2)])
+		sg := vxSig07(ids[vxPick(2)])
 		cp := sg
 		after.put(cp)
 		mutate = func() error { return s.AddSignature(&sg) }
 	case 1:
-		b0, b1 := vxSig(ids[vxPick(2)]), vxSig(ids[vxPick(2)])
+		b0, b1 := vxSig07(ids[vxPick(2)]), vxSig07(ids[vxPick(2)])
 		c0, c1 := b0, b1
 		after.put(c0)
 		after.put(c1)
@@ -127,6 +146,8 @@ func VerifC07_Crash() {
 		okBefore := vxConsistent(s, before, ids)
 		vxAssert("interrupted-mutation-all-or-nothing", vxOr(okBefore, okAfter))
 	}
-	vxCover("crash-hit", crashed)
+	if vxParam("samehist", 0) == 0 {
+		vxCover("crash-hit", crashed)
+	}
 	vxCover("completed", returnedOK)
 }
